@@ -276,6 +276,16 @@ func (s *clientSocket) finishUpgradeTo(t ClientTransport, c *transport.Callbacks
 	s.transportMu.Lock()
 	defer s.transportMu.Unlock()
 
+	// The socket may have been closed while the new transport was being probed. `close` has already
+	// closed the current transport. If we switched to the new one now, it would stay open,
+	// keep answering the server's pings, and the session would live on the server forever.
+	select {
+	case <-s.closeChan:
+		t.Close()
+		return
+	default:
+	}
+
 	old := s.transport
 	s.transport = t
 
